@@ -210,8 +210,9 @@ def renumber_after_mutation(ctx, rule):
         ok = False
         for rb in ren:
             # loop header of the renumber loop post-dominates every mutation
-            hdrs = [d for d in cfg.dom()[rb] if cfg.in_loop(d)]
-            hdr = min(hdrs) if hdrs else rb
+            hdr = cfg.loop_header(rb)
+            if hdr is None:
+                hdr = rb
             if all(cfg.every_path_passes(mb, [hdr]) and mb != hdr and not cfg.path_exists(hdr, mb) for mb, _ in muts):
                 ok = True
         if ok:
